@@ -1,5 +1,6 @@
 """table behind MANIFEST.json (see bin/mkmanifest.py)"""
 _T = 'bounded symbolic execution of the real code (CrossHair + z3), solver verdict per path tree'
+_CO = ' + statement-level interleavings of source-generated co-routines with symbolic preemptions (engine CO)'
 _NOTE = ('trusted: CPython, CrossHair 0.0.110 models of int/list/dict, z3 5.1, shims S1/S2 (lemmas L1/L2), the fakes '
          'in /verif/vlib; bounds per obligation are in the evidence file')
 CHECKS = {
@@ -13,24 +14,24 @@ CHECKS = {
              'parts, <= 3 chunks per attempt, <= 2 retryable stream faults at symbolic byte positions, symbolic short '
              'reads) and of GetObjectTask alone.',
         note=_NOTE + '; identity-content data; legacy ranged download and process-pool facade need real threads/'
-             'processes and are outside', technique=_T),
+             'processes and are outside', technique=_T + _CO),
     'C03': dict(
         text='Every transfer type/mode with ONE fault at a symbolic index over all environment calls and symbolic phase '
              '(fault enumeration done by the solver, not by a loop): never success after a delivered fault, raised '
              'exception is an injected one, success implies the complete effect; retry budget with symbolic fault '
              'positions.  Bound: single request and 2-part shapes, serial schedule; fault pairs in thorough tier.',
-        note=_NOTE + '; faults land only on environment calls', technique=_T),
+        note=_NOTE + '; faults land only on environment calls', technique=_T + _CO),
     'C04': dict(
         text='Real manager over model executor + model threading (owner-tracking locks: self-deadlock is definite; '
              'blocking primitives pump other work: nothing runnable = definite deadlock).  Quiescence completion with '
              'limits symbolic in 1..3, one symbolic fault, symbolic nested-start choices; re-entrant subscriber '
              'callbacks on every announce path; the submission wait loop.  Bounded to serial and nested (LIFO) '
              'schedules; arbitrary preemptive interleavings are outside this technique.',
-        note=_NOTE + '; model threading primitives in /verif/vlib/ns.py', technique=_T + ' over nested schedules'),
+        note=_NOTE + '; model threading primitives in /verif/vlib/ns.py', technique=_T + ' over nested schedules' + _CO),
     'C05': dict(
         text='Multipart upload/copy life cycle against a fake multipart table under one symbolic fault (before/after '
              'effect), incl. the legacy uploader; serial schedule.',
-        note=_NOTE + '; abort-vs-in-flight ordering only for serial/nested schedules', technique=_T),
+        note=_NOTE + '; abort-vs-in-flight ordering only for serial/nested schedules', technique=_T + _CO),
     'C06': dict(
         text='Crash-point invariant evaluated after every FS operation of an in-memory file system, one symbolic fault, '
              'destination pre-existing or not; TransferManager and legacy S3Transfer (single + ranged).',
@@ -40,10 +41,10 @@ CHECKS = {
              'points; inside the n-th environment call for future.cancel()), symbolic nested-start choices, real '
              'manager over model executors; oracle on exception type/message, no request for not-started transfers, '
              'cleanups, success implies complete effect.',
-        note=_NOTE + '; nested (LIFO) schedules only', technique=_T + ' over nested schedules'),
+        note=_NOTE + '; nested (LIFO) schedules only', technique=_T + ' over nested schedules' + _CO),
     'C08': dict(
         text='Recording subscribers with a logical clock in every outcome of the single-fault family; provide_size.',
-        note=_NOTE + '; serial schedule', technique=_T),
+        note=_NOTE + '; serial schedule', technique=_T + _CO),
     'C09': dict(
         text='Unbounded inductive step on ReadFileChunk + AggregatedProgressCallback (any number of rewinds), plus '
              'bounded e2e sums for uploads/downloads/copies with symbolic read sizes, re-sends and stream faults.',
@@ -53,18 +54,18 @@ CHECKS = {
              'number of free permits; stage attribution, in-flight request count and per-stage occupancy in '
              'nested-schedule runs with limits symbolic in 1..3.',
         note=_NOTE + '; nested (LIFO) schedules only; stdlib ThreadPoolExecutor trusted to honour max_workers',
-        technique=_T + ' over nested schedules'),
+        technique=_T + ' over nested schedules' + _CO),
     'C11': dict(
         text='Live stream-upload buffers (bytes read minus bytes of finished requests), the non-seekable download '
              'window (highest requested vs lowest unfinished part) and pending writes, in laziest-consumer and nested '
              'schedules with the limits symbolic in 1..3; tag placement.',
         note=_NOTE + '; A4 (BufferedReader contract) for the per-buffer size clause; nested schedules only',
-        technique=_T + ' over nested schedules'),
+        technique=_T + ' over nested schedules' + _CO),
     'C12': dict(
         text='Inductive step on the real SlidingWindowSemaphore from an arbitrary invariant-satisfying state (unbounded '
              'counters) against a reference model, bounded API histories, TaskSemaphore conservation, quiescence of '
              'manager semaphores after e2e transfers.',
-        note=_NOTE + '; representation invariant stated in harness/c12.py', technique=_T),
+        note=_NOTE + '; representation invariant stated in harness/c12.py', technique=_T + _CO),
     'C15': dict(
         text='Exhaustive over the finite argument-name space through a symbolic index, oracle = installed botocore S3 '
              'model; all manager front ends and the legacy S3Transfer, single and multipart/ranged, with all subsets '
@@ -73,17 +74,17 @@ CHECKS = {
     'C16': dict(
         text='The real DeferQueue driven with delivery histories exactly as quantified (parts, attempts cut anywhere, '
              'interleavings) with unbounded symbolic lengths, plus a one-step obligation from an arbitrary queue state.',
-        note=_NOTE, technique=_T),
+        note=_NOTE, technique=_T + _CO),
     'C17': dict(
         text='Reference state machine vs the real TransferCoordinator/TransferFuture: one step from every consistent '
              'state (symbolic state and operation index) and all operation sequences of length 4 (thorough 5).',
-        note=_NOTE, technique=_T),
+        note=_NOTE, technique=_T + _CO),
     'C13': dict(
         text='Integer accounting of BandwidthLimitedStream against a stub bucket; the real ConsumptionScheduler / '
              'LeakyBucket / BandwidthRateTracker over z3 reals (shim S3): wait accumulation, abandoned waiters, '
              'one-step admission rule and the never-delayed-below-the-limit induction step from an arbitrary state.',
         note=_NOTE + '; reals instead of binary64 (A2); the windowed 1.25 bound for unbounded histories is not proved',
-        technique=_T + ' (nonlinear real arithmetic)'),
+        technique=_T + ' (nonlinear real arithmetic + _CO)'),
     'C18': dict(
         text='Three transfers of different types on one real manager over model executors; which one fails (symbolic '
              'fault index) or is cancelled (symbolic point) is decided by the solver; isolation oracle per transfer, '
